@@ -47,22 +47,50 @@ def rep(r):
     return float('inf') if r >= INF else r
 
 
+class Unsupported(BaseException):
+    """generator error (an operation that is not linear in the values under a lattice scale): never a verdict"""
+
+
 class Builder:
     def __init__(self, m):
         self.m = m
+        self.q = 1          # lattice: value positions hold v/q (floats) when q > 1
 
     def items(self, l):
         return [self.build(i) for i in l]
+
+    def count(self, x):
+        """operand in a count / index position: never scaled"""
+        q, self.q = self.q, 1
+        try:
+            return self.build(x)
+        finally:
+            self.q = q
+
+    def val(self, v):
+        return v if self.q == 1 else v / self.q
 
     def build(self, x):
         m = self.m
         lp, fp, vp, fu, ptt, bi = m['lp'], m['fp'], m['vp'], m['fu'], m['ptt'], m['bi']
         t = x['t']
         b = self.build
+        cnt = self.count
+        if t == 'sc':
+            if self.q != 1:
+                raise Unsupported('nested scale')
+            self.q = x['q']
+            try:
+                return b(x['p'])
+            finally:
+                self.q = 1
+        if self.q != 1 and (t in ('geom', 'collect', 'select', 'reject', 'wrap', 'seed', 'place') or
+                            (t in ('unop', 'binop', 'narop') and x['f'] in ('sq', 'mul', 'wrap'))):
+            raise Unsupported(t)
         if t == 'int':
-            return x['v']
+            return self.val(x['v'])
         if t == 'lit':
-            return list(x['w'])
+            return [self.val(v) for v in x['w']]
         if t == 'arr':
             return self.items(x['l'])
         if t == 'seq':
@@ -78,25 +106,27 @@ class Builder:
         if t == 'drop':
             return fp.Pdrop(b(x['p']), x['k'])
         if t == 'stut':
-            return fp.Pstutter(b(x['p']), b(x['n']))
+            return fp.Pstutter(b(x['p']), cnt(x['n']))
         if t == 'clump':
-            return fp.Pclump(b(x['p']), b(x['n']))
+            return fp.Pclump(b(x['p']), cnt(x['n']))
         if t == 'flat':
-            return fp.Pflatten(b(x['p']), b(x['n']))
+            return fp.Pflatten(b(x['p']), cnt(x['n']))
         if t == 'diff':
             return fp.Pdiff(b(x['p']))
         if t == 'const':
-            return fp.Pconst(b(x['p']), x['k'])
+            if x['tl'] == 0:
+                return fp.Pconst(b(x['p']), self.val(x['k']))         # default tolerance 0.001
+            return fp.Pconst(b(x['p']), self.val(x['k']), self.val(x['tl']))
         if t == 'switch':
-            return lp.Pswitch(self.items(x['l']), b(x['a']))
+            return lp.Pswitch(self.items(x['l']), cnt(x['a']))
         if t == 'switch1':
-            return lp.Pswitch1(self.items(x['l']), b(x['a']))
+            return lp.Pswitch1(self.items(x['l']), cnt(x['a']))
         if t == 'tuple':
             return lp.Ptuple(self.items(x['l']), rep(x['r']))
         if t == 'slide':
-            return lp.Pslide(self.items(x['l']), b(x['n']), b(x['st']), x['k'], x['wr'], rep(x['r']))
+            return lp.Pslide(self.items(x['l']), cnt(x['n']), cnt(x['st']), x['k'], x['wr'], rep(x['r']))
         if t == 'series':
-            return vp.Pseries(x['k'], b(x['st']), rep(x['r']))
+            return vp.Pseries(self.val(x['k']), b(x['st']), rep(x['r']))
         if t == 'geom':
             return vp.Pgeom(x['k'], b(x['st']), rep(x['r']))
         if t == 'collect':
@@ -106,7 +136,7 @@ class Builder:
         if t == 'reject':
             return fp.Preject(P1[x['f']], b(x['p']))
         if t == 'if':
-            return fu.Pif(b(x['a']), b(x['b']), b(x['c']))
+            return fu.Pif(cnt(x['a']), b(x['b']), b(x['c']))
         if t == 'wrap':
             return fp.Pwrap(b(x['p']), b(x['a']), b(x['b']))
         if t == 'unop':
@@ -194,7 +224,15 @@ def fill_tapes(x, n):
             s['tp'].append({'sd': sd, 'd': [g.randrange(k) for _ in range(4 * n + 8)]})
 
 
+Q = [1]     # lattice of the case being run: numbers are read back times Q (must then be integers, exactly)
+
+
 def enc(v):
+    if Q[0] != 1 and isinstance(v, (int, float)) and not isinstance(v, bool):
+        w = v * Q[0]
+        if w != w or abs(w) >= LIMIT or w != int(w):
+            raise ValueError('odd:offlattice')
+        v = int(w)
     if isinstance(v, bool) or not isinstance(v, (int, list, tuple)):
         raise ValueError('odd:' + type(v).__name__)
     if isinstance(v, int):
@@ -253,6 +291,7 @@ def run_case(m, case, n):
     stm = m['stm']
     x = case['x']
     fill_tapes(x, n)
+    Q[0] = x['q'] if x['t'] == 'sc' else 1
     try:
         pat = Builder(m).build(x)
     except Timeout:
